@@ -25,6 +25,20 @@ def encodable(st):
     return c in INT_DOMAIN or c in SCALED or c in GROUPS or c in ("Decimal", "Timestamp")
 
 
+def expected_register(inv, st):
+    """Where the layout of the eco-mode groups puts a group's on/off switch: the 4th register of a 4-register (v1)
+    group, the 3rd of a 6-register (v2) group — independent of the library's eco_mode_N_switch definition.  For all
+    other settings the register is the one the definition names (no independent register map exists)."""
+    import re as _re
+    m = _re.fullmatch(r"eco_mode_(\d)_switch", st.id_)
+    if m:
+        g = inv._settings.get(f"eco_mode_{m.group(1)}")
+        if g is not None:
+            n = (g.size_ + 1) // 2
+            return g.offset + (3 if n == 4 else 2)
+    return st.offset
+
+
 class WriteRead(Harness):
     def __init__(self, cfg, sid, transport="udp", seq=False):
         self.cfg, self.sid, self.transport, self.seq = cfg, sid, transport, seq
@@ -133,6 +147,8 @@ class WriteRead(Harness):
             ex.fail("write_setting did not transmit exactly one write", str([o[:2] for o in fake.log]))
         w = writes[0]
         ex.check(w[1] == st.offset, "write addressed to the wrong register", f"{w[1]} != {st.offset}")
+        if expected_register(inv, st) != st.offset:
+            ex.fail("the switch is not the on/off register of its own eco-mode group", f"{st.offset} != {expected_register(inv, st)}")
         payload = list(w[2])
         ex.check(len(payload) == 2 * count, "write covers the wrong number of registers", f"{len(payload)} bytes, {count} registers")
         if w[0] == "multi":
@@ -197,6 +213,9 @@ class WriteRead(Harness):
         obs = f"value={value!r} prior={[hex(before[a]) for a in sorted(before)]} write={w[0]}@{w[1]} bytes={payload.hex()} expected={exp.hex()}"
         if w[1] != st.offset or len(payload) != 2 * count or payload != exp:
             return {"outcome": "write", "violation": f"{tag}: wrong register, length or encoding written", "observed": obs}
+        if expected_register(inv, st) != st.offset:
+            return {"outcome": "write", "violation": f"{tag}: the switch is not the on/off register of its own eco-mode group",
+                    "observed": obs + f" group layout puts it at {expected_register(inv, st)}"}
         for a in (st.offset - 1, st.offset + count):
             if fake.get(a) != before[a]:
                 return {"outcome": "neighbour", "violation": f"{tag}: neighbouring register changed", "observed": obs}
